@@ -21,3 +21,22 @@ package search
 //@   ensures [true-only-if-every-block-is-inside-the-window] implies(result, forall(k, 0, len(allBlockSummaries), blockInside(queryWindow, allBlockSummaries[k])))
 //@   ensures [true-if-every-block-is-inside-the-window] implies(forall(k, 0, len(allBlockSummaries), blockInside(queryWindow, allBlockSummaries[k])), result)
 //@ end
+
+// C09 (every stored sample inside the query window reaches the aggregation):
+// a series' run in a metrics block is stored in ARRIVAL order (late samples are
+// accepted), so the block worker reads each run to its end and keeps exactly
+// the samples inside the window; it never stops at the first sample past the
+// window's end.  Ghost mbwExhausted: the last answer of the run iterator's
+// Next() was "no more samples".
+//@ ghostdecl mbwExhausted int
+//@ func blockWorker
+//@   props C09
+//@   assumecalleerequires
+//@   ghostinit ghost(0, "mbwExhausted") == 0
+//@   site callret tsitr.Next #1:
+//@     ghostset ghost(0, "mbwExhausted") = ite(result, 0, 1)
+//@   site call tsitr.Err #1:
+//@     assert [series-run-is-read-to-its-end] ghost(0, "mbwExhausted") == 1
+//@   site call series.AddEntry #1:
+//@     assert [only-samples-inside-the-window-are-kept] timeRange.StartEpochSec <= arg1 && arg1 <= timeRange.EndEpochSec
+//@ end
